@@ -1085,6 +1085,35 @@ class NpModule:
     def logical_not(self, a):
         return a.logical_not()
 
+    def _minmax(self, a, b, is_max):
+        if not isinstance(a, VArr):
+            a, b = b, a
+        if not isinstance(a, VArr):
+            raise Unsupported("np.maximum of non-arrays")
+        if isinstance(b, VArr):
+            _same_space(a, b)
+            rd = _array_array_dtype(a.dtype_name, b.dtype_name)
+            ta, tb = _num_terms(a.term, b.term)
+        else:
+            rd = _array_scalar_dtype(self.eng, a.dtype_name, b)
+            ta, tb = _num_terms(a.term, to_term(b))
+        return VArr(z3.simplify(z3.If((ta >= tb) if is_max else (ta <= tb), ta, tb)), rd, a.space)
+
+    def maximum(self, a, b):
+        return self._minmax(a, b, True)
+
+    def minimum(self, a, b):
+        return self._minmax(a, b, False)
+
+    def where(self, c, a=None, b=None):
+        if a is None or not isinstance(c, VArr):
+            raise Unsupported("np.where in index form")
+        ta = a.term if isinstance(a, VArr) else to_term(a)
+        tb = b.term if isinstance(b, VArr) else to_term(b)
+        ta, tb = _num_terms(ta, tb)
+        dt = a.dtype_name if isinstance(a, VArr) else (b.dtype_name if isinstance(b, VArr) else "int64")
+        return VArr(z3.simplify(z3.If(c.nonzero_term(), ta, tb)), dt, c.space)
+
     def _shape_space(self, shape):
         """arrays created with the same concrete shape live in the same index space"""
         key = tuple(shape) if isinstance(shape, (tuple, list)) else (shape,)
